@@ -219,12 +219,57 @@ class FoldInterp(object):
             if isinstance(e, ast.List) and self.port == 'py' or (isinstance(e, ast.List) and len(items) == 1 and self.cls.name in ('MedianAggregator', 'ArrayAggAggregator')):
                 return Seq('empty', items)
             return Tup(items)
-        if isinstance(e, ast.Subscript) and not isinstance(e.slice, ast.Slice) and isinstance(e.slice, ast.Constant) and isinstance(e.slice.value, int):
-            base = self._expr(e.value, env)
-            if isinstance(base, Old):
-                return base.comp(e.slice.value)
-            if isinstance(base, Tup):
-                return base.items[e.slice.value]
+        if isinstance(e, ast.Subscript) and not isinstance(e.slice, ast.Slice):
+            idx = e.slice.value if isinstance(e.slice, ast.Constant) and isinstance(e.slice.value, int) else None
+            if idx is None and isinstance(e.slice, ast.Name) and isinstance(env.get(e.slice.id), int):
+                idx = env[e.slice.id]          # index variable of an element-wise map, bound to a concrete position
+            if idx is not None:
+                base = self._expr(e.value, env)
+                if isinstance(base, Old):
+                    return base.comp(idx)
+                if isinstance(base, Tup) and 0 <= idx < len(base.items):
+                    return base.items[idx]
+                if isinstance(base, Seq) and base.base == 'empty' and 0 <= idx < len(base.appended):
+                    return base.appended[idx]
+        # element-wise combination of the stored tuple with a list of terms: old.map((x, i) => x + terms[i])
+        if isinstance(e, ast.Call) and isinstance(e.func, ast.Attribute) and e.func.attr == 'map' and len(e.args) == 1:
+            fn = e.args[0]
+            fparams, fbody = None, None
+            if isinstance(fn, ast.Lambda):
+                fparams, fbody = [a.arg for a in fn.args.args], fn.body
+            else:
+                ref = getattr(fn, 'js_function_ref', None)
+                if ref is not None and len(ref.body) == 1 and isinstance(ref.body[0], ast.Return) and ref.body[0].value is not None:
+                    fparams, fbody = [a.arg for a in ref.args.args], ref.body[0].value
+            if fparams is not None and 1 <= len(fparams) <= 2:
+                base = self._expr(e.func.value, env)
+                n_items = None
+                if isinstance(base, Tup):
+                    n_items = len(base.items)
+                elif isinstance(base, Old) and len(fparams) == 2:
+                    # arity = length of the list(s) the body indexes with the position parameter
+                    lens = set()
+                    for x in ast.walk(fbody):
+                        if isinstance(x, ast.Subscript) and isinstance(x.slice, ast.Name) and x.slice.id == fparams[1]:
+                            try:
+                                b_ = self._expr(x.value, env)
+                            except Undecided:
+                                b_ = None
+                            if isinstance(b_, Tup):
+                                lens.add(len(b_.items))
+                            elif isinstance(b_, Seq) and b_.base == 'empty':
+                                lens.add(len(b_.appended))
+                    if len(lens) == 1:
+                        n_items = lens.pop()
+                if n_items is not None:
+                    out = []
+                    for i in range(n_items):
+                        env2 = dict(env)
+                        env2[fparams[0]] = base.comp(i) if isinstance(base, Old) else base.items[i]
+                        if len(fparams) == 2:
+                            env2[fparams[1]] = i
+                        out.append(self._expr(fbody, env2))
+                    return Tup(out)
         if isinstance(e, ast.BinOp):
             a, b = self._expr(e.left, env), self._expr(e.right, env)
             a, b = self._num(a, e), self._num(b, e)
@@ -491,35 +536,104 @@ def rule_ag_median(cx, rep, port):
         if f is None:
             rep.violated('median sort', s, 'Array.sort() without a comparator sorts numbers as strings (10 before 9): the median of multi-digit values is wrong')
         else:
-            ok = ref is not None and 'return a - b' in node_text(ref, 200)
-            rep.decide(ok, 'median sort', s, 'numeric ascending comparator', 'the MEDIAN comparator is not the numeric ascending `a - b`')
-    t = node_text(gf, 3000)
-    mids = [n for n in walk_no_nested(gf) if isinstance(n, ast.Assign) and isinstance(n.targets[0], ast.Name) and ('/ 2' in node_text(n.value) or '// 2' in node_text(n.value)) and 'len(' in node_text(n.value)]
-    okm = len(mids) == 1 and (node_text(mids[0].value).replace('Math.floor', 'int') in ('int(len(sorted_vals) / 2)', 'int(len(cur_aggr) / 2)') or '// 2' in node_text(mids[0].value))
-    if not mids:
-        rep.undecided('median middle', gf, 'middle index not recognised')
+            from ..idioms import difference_comparator
+            dc = difference_comparator(f)
+            if dc is None:
+                rep.undecided('median sort', s, 'MEDIAN comparator `{}` is not of the form (a, b) => a - b'.format(node_text(ref if ref is not None else f, 60)))
+            else:
+                rep.decide(dc == ('asc', '_'), 'median sort', s, 'numeric ascending comparator', 'the MEDIAN comparator is not the numeric ascending `a - b` (it orders {} by `{}`)'.format('descending' if dc[0] == 'desc' else 'ascending', dc[1]))
+    # the value per path (path summaries: temporaries, guard clauses, conditional expressions are all the same thing)
+    from .. import pathsem
+    ps = pathsem.paths(gf)
+    if ps is None:
+        rep.undecided('median middle', gf, 'get_final is not summarisable as paths')
         return
-    m = mids[0].targets[0].id
-    rep.decide(okm or ('int(' in node_text(mids[0].value).replace('Math.floor', 'int') and '/ 2)' in node_text(mids[0].value)), 'median middle', mids[0], 'm = floor(n / 2)', 'the middle index is `{}` (must be floor(n / 2))'.format(node_text(mids[0].value)))
-    par = [n for n in walk_no_nested(gf) if isinstance(n, ast.If) and '% 2' in node_text(n.test)]
-    if len(par) != 1:
-        rep.undecided('median parity', gf, 'parity test not found')
-        return
-    iff = par[0]
-    odd_first = node_text(iff.test).endswith('% 2')
-    odd_arm, even_arm = (iff.body, iff.orelse) if odd_first else (iff.orelse, iff.body)
-    if not odd_first and not node_text(iff.test).endswith('% 2 == 0'):
-        rep.undecided('median parity', iff, 'parity test `{}` not recognised'.format(node_text(iff.test)))
-        return
-    o_ret = [r for r in odd_arm if isinstance(r, ast.Return)]
-    ok_odd = len(o_ret) == 1 and isinstance(o_ret[0].value, ast.Subscript) and is_name(o_ret[0].value.slice, m)
-    rep.decide(ok_odd, 'median odd', o_ret[0] if o_ret else iff, 'odd count -> the middle value', 'for an odd number of values MEDIAN does not return the middle one (`{}`)'.format(node_text(o_ret[0].value) if o_ret else ''))
-    et = ' '.join(node_text(x, 300) for x in even_arm)
-    idx_lo = '[{} - 1]'.format(m)
-    idx_hi = '[{}]'.format(m)
-    ok_even = idx_lo in et and idx_hi in et and ('/ 2' in et) and ('+' in et)
-    bad_idx = '[{} + 1]'.format(m) in et
-    rep.decide(ok_even and not bad_idx, 'median even', even_arm[0] if even_arm else iff, 'even count -> mean of the two middle values s[m-1], s[m]', 'for an even number of values MEDIAN is not (s[m-1] + s[m]) / 2 (`{}`)'.format(et[:120]))
+
+    def floor_half(e):
+        """is e = floor(len(S) / 2) for some sequence S?  -> dump of S"""
+        def ln(x):
+            if isinstance(x, ast.Call) and dotted(x.func) == 'len' and len(x.args) == 1:
+                return ast.dump(x.args[0])
+            if isinstance(x, ast.Attribute) and x.attr == 'length':
+                return ast.dump(x.value)
+            return None
+        if isinstance(e, ast.Call) and dotted(e.func) in ('int', 'Math.floor', 'math.floor', 'Math.trunc') and len(e.args) == 1:
+            d = e.args[0]
+            if isinstance(d, ast.BinOp) and isinstance(d.op, ast.Div) and isinstance(d.right, ast.Constant) and d.right.value in (2, 2.0):
+                return ln(d.left)
+        if isinstance(e, ast.BinOp) and isinstance(e.op, ast.FloorDiv) and isinstance(e.right, ast.Constant) and e.right.value == 2:
+            return ln(e.left)
+        if isinstance(e, ast.BinOp) and isinstance(e.op, ast.RShift) and isinstance(e.right, ast.Constant) and e.right.value == 1:
+            return ln(e.left)
+        return None
+
+    def elem(e):
+        """S[m + k] -> (dump of S, k) with m = floor(len(S)/2)"""
+        if not isinstance(e, ast.Subscript):
+            return None
+        seq, i = ast.dump(e.value), e.slice
+        k = 0
+        if isinstance(i, ast.BinOp) and isinstance(i.op, (ast.Add, ast.Sub)) and isinstance(i.right, ast.Constant) and isinstance(i.right.value, int):
+            k = i.right.value if isinstance(i.op, ast.Add) else -i.right.value
+            i = i.left
+        fh = floor_half(i)
+        if fh is None or fh != seq:
+            return None
+        return (seq, k)
+    n_odd = n_even = 0
+    for q in ps:
+        if q.kind != 'return' or q.value is None:
+            continue
+        parity = None     # True = odd
+        equal_mid = None
+        for atom, pol in pathsem.atoms(q.conds):
+            t_ = atom
+            if isinstance(t_, ast.BinOp) and isinstance(t_.op, ast.Mod) and isinstance(t_.right, ast.Constant) and t_.right.value == 2:
+                parity = pol
+            elif isinstance(t_, ast.Compare) and len(t_.ops) == 1 and isinstance(t_.left, ast.BinOp) and isinstance(t_.left.op, ast.Mod) and isinstance(t_.left.right, ast.Constant) and t_.left.right.value == 2 and isinstance(t_.comparators[0], ast.Constant) and t_.comparators[0].value in (0, 1) and isinstance(t_.ops[0], (ast.Eq, ast.NotEq, ast.Is, ast.IsNot)):
+                is_one = (t_.comparators[0].value == 1) == isinstance(t_.ops[0], (ast.Eq, ast.Is))
+                parity = is_one == pol
+            elif isinstance(t_, ast.Compare) and len(t_.ops) == 1 and isinstance(t_.ops[0], (ast.Eq, ast.NotEq)) and elem(t_.left) and elem(t_.comparators[0]) and {elem(t_.left)[1], elem(t_.comparators[0])[1]} == {-1, 0}:
+                equal_mid = isinstance(t_.ops[0], ast.Eq) == pol
+        if parity is None:
+            rep.undecided('median parity', q.node, 'a path of get_final is not classified by the parity of the number of values')
+            return
+        v = q.value
+        if parity:
+            n_odd += 1
+            el = elem(v)
+            if el is None:
+                rep.undecided('median odd', q.node, 'value `{}` returned for an odd count not recognised'.format(node_text(v, 60)))
+                return
+            if el[1] != 0:
+                rep.violated('median odd', q.node, 'for an odd number of values MEDIAN returns the element {} the middle one'.format('after' if el[1] > 0 else 'before'))
+                return
+        else:
+            n_even += 1
+            el = elem(v)
+            if el is not None and equal_mid is True and el[1] in (-1, 0):
+                continue       # the two middle values are equal: either of them is their mean
+            ok_even = False
+            if isinstance(v, ast.BinOp) and isinstance(v.op, ast.Div) and isinstance(v.right, ast.Constant) and v.right.value in (2, 2.0) and isinstance(v.left, ast.BinOp) and isinstance(v.left.op, ast.Add):
+                a_, b_ = elem(v.left.left), elem(v.left.right)
+                if a_ and b_ and a_[0] == b_[0]:
+                    if {a_[1], b_[1]} == {-1, 0}:
+                        ok_even = True
+                    else:
+                        rep.violated('median even', q.node, 'for an even number of values MEDIAN averages the elements at m{:+d} and m{:+d} instead of the two middle ones (m-1, m)'.format(a_[1], b_[1]))
+                        return
+            if not ok_even:
+                if el is not None:
+                    rep.violated('median even', q.node, 'for an even number of values MEDIAN returns one element (`{}`) instead of the mean of the two middle ones'.format(node_text(v, 50)))
+                    return
+                rep.undecided('median even', q.node, 'value `{}` returned for an even count not recognised'.format(node_text(v, 80)))
+                return
+    if n_odd and n_even:
+        rep.holds('median middle', gf, 'm = floor(n / 2) indexes the sorted values')
+        rep.holds('median odd', gf, 'odd count -> the middle value')
+        rep.holds('median even', gf, 'even count -> mean of the two middle values s[m-1], s[m]')
+    else:
+        rep.undecided('median parity', gf, 'odd / even paths not both found')
 
 
 def rule_ag_parse(cx, rep, port='js'):
